@@ -70,6 +70,11 @@ func CidFromToken(tok string) cid.Cid {
 	return cid.NewCidV1(cid.Raw, h)
 }
 
+// BlockKey is the key under which a block store holds the block addressed by c:
+// the multihash digest, NOT the full CID — IPFS block stores ignore the CID's
+// version and codec, so two CIDs with the same digest alias the same block.
+func BlockKey(c cid.Cid) string { return string(c.Hash()) }
+
 // MkCid returns the k-th of a family of distinct well-formed CIDs.
 func MkCid(k int) cid.Cid { return CidFromToken(fmt.Sprintf("mk-%d", k)) }
 
@@ -169,7 +174,7 @@ func NewBlocks(log *EffectLog) *Blocks {
 func (b *Blocks) Has(c cid.Cid) bool {
 	b.mu.Lock()
 	defer b.mu.Unlock()
-	_, ok := b.objs[c.String()]
+	_, ok := b.objs[BlockKey(c)]
 	return ok
 }
 
@@ -183,7 +188,7 @@ func (b *Blocks) PutKey(k string, obj interface{}) {
 // Put stores obj under c without going through IO (e.g. to rebuild a disk from an effect log).
 func (b *Blocks) Put(c cid.Cid, obj interface{}) {
 	b.mu.Lock()
-	b.objs[c.String()] = obj
+	b.objs[BlockKey(c)] = obj
 	b.mu.Unlock()
 }
 
@@ -259,11 +264,11 @@ func (io *IO) Write(ctx context.Context, ipfs coreiface.CoreAPI, obj interface{}
 		stored := o.Copy()
 		stored.SetHash(cid.Cid{})
 		io.B.mu.Lock()
-		_, had := io.B.objs[c.String()]
-		io.B.objs[c.String()] = stored
+		_, had := io.B.objs[BlockKey(c)]
+		io.B.objs[BlockKey(c)] = stored
 		io.B.mu.Unlock()
 		if !had {
-			io.B.Log.add(Effect{Kind: "block", Key: c.String(), Obj: stored})
+			io.B.Log.add(Effect{Kind: "block", Key: BlockKey(c), Obj: stored})
 		}
 		return c, nil
 	case *logiface.JSONLog:
@@ -276,9 +281,9 @@ func (io *IO) Write(ctx context.Context, ipfs coreiface.CoreAPI, obj interface{}
 			Heads []string
 		}{o.ID, heads}))
 		io.B.mu.Lock()
-		io.B.objs[c.String()] = o
+		io.B.objs[BlockKey(c)] = o
 		io.B.mu.Unlock()
-		io.B.Log.add(Effect{Kind: "block", Key: c.String(), Obj: o})
+		io.B.Log.add(Effect{Kind: "block", Key: BlockKey(c), Obj: o})
 		return c, nil
 	}
 	return cid.Cid{}, fmt.Errorf("vstub.IO: cannot write %T", obj)
@@ -291,18 +296,18 @@ func (io *IO) Read(ctx context.Context, ipfs coreiface.CoreAPI, c cid.Cid) (form
 	hook := io.B.OnRead
 	io.B.mu.Unlock()
 	if hook != nil {
-		hook(nread, c.String())
+		hook(nread, BlockKey(c))
 	}
 	io.B.mu.Lock()
-	hang := io.B.Hang[c.String()]
+	hang := io.B.Hang[BlockKey(c)]
 	io.B.mu.Unlock()
 	if hang {
 		<-ctx.Done()
 		return nil, ctx.Err()
 	}
 	io.B.mu.Lock()
-	obj, ok := io.B.objs[c.String()]
-	missing := io.B.Missing[c.String()]
+	obj, ok := io.B.objs[BlockKey(c)]
+	missing := io.B.Missing[BlockKey(c)]
 	peers := io.B.Peers
 	io.B.mu.Unlock()
 	if err := ctx.Err(); err != nil {
@@ -311,14 +316,14 @@ func (io *IO) Read(ctx context.Context, ipfs coreiface.CoreAPI, c cid.Cid) (form
 	if !ok && !missing {
 		for _, p := range peers {
 			p.mu.Lock()
-			pobj, pok := p.objs[c.String()]
+			pobj, pok := p.objs[BlockKey(c)]
 			p.mu.Unlock()
 			if pok {
 				obj, ok = pobj, true
 				io.B.mu.Lock()
-				io.B.objs[c.String()] = pobj
+				io.B.objs[BlockKey(c)] = pobj
 				io.B.mu.Unlock()
-				io.B.Log.add(Effect{Kind: "block", Key: c.String(), Obj: pobj})
+				io.B.Log.add(Effect{Kind: "block", Key: BlockKey(c), Obj: pobj})
 				break
 			}
 		}
